@@ -67,15 +67,16 @@ pub type BeforeFn = fn(&Pending) -> Directive;
 pub type AfterFn = fn(&Event);
 pub type ZeroedFn = fn(usize, usize);
 
-static BEFORE: cs::AtomicUsize = cs::AtomicUsize::new(0);
-static AFTER: cs::AtomicUsize = cs::AtomicUsize::new(0);
-static ZEROED: cs::AtomicUsize = cs::AtomicUsize::new(0);
+// function pointers are kept as pointers (not integers) so that their provenance survives under Miri
+static BEFORE: cs::AtomicPtr<()> = cs::AtomicPtr::new(core::ptr::null_mut());
+static AFTER: cs::AtomicPtr<()> = cs::AtomicPtr::new(core::ptr::null_mut());
+static ZEROED: cs::AtomicPtr<()> = cs::AtomicPtr::new(core::ptr::null_mut());
 
 /// Installs the callbacks (process global).
 pub fn install(before: Option<BeforeFn>, after: Option<AfterFn>, zeroed: Option<ZeroedFn>) {
-  BEFORE.store(before.map_or(0, |f| f as usize), Ordering::SeqCst);
-  AFTER.store(after.map_or(0, |f| f as usize), Ordering::SeqCst);
-  ZEROED.store(zeroed.map_or(0, |f| f as usize), Ordering::SeqCst);
+  BEFORE.store(before.map_or(core::ptr::null_mut(), |f| f as *mut ()), Ordering::SeqCst);
+  AFTER.store(after.map_or(core::ptr::null_mut(), |f| f as *mut ()), Ordering::SeqCst);
+  ZEROED.store(zeroed.map_or(core::ptr::null_mut(), |f| f as *mut ()), Ordering::SeqCst);
 }
 
 /// Removes the callbacks.
@@ -86,11 +87,11 @@ pub fn uninstall() {
 #[inline]
 fn before(access: Access, addr: usize, width: u8, loc: &'static Location<'static>) -> Directive {
   let f = BEFORE.load(Ordering::Relaxed);
-  if f == 0 {
+  if f.is_null() {
     return Directive::Proceed;
   }
   // Safety: only ever stored from a `BeforeFn`.
-  let f: BeforeFn = unsafe { core::mem::transmute::<usize, BeforeFn>(f) };
+  let f: BeforeFn = unsafe { core::mem::transmute::<*mut (), BeforeFn>(f) };
   f(&Pending {
     access,
     addr,
@@ -103,11 +104,11 @@ fn before(access: Access, addr: usize, width: u8, loc: &'static Location<'static
 #[inline]
 fn after(ev: impl FnOnce() -> Event) {
   let f = AFTER.load(Ordering::Relaxed);
-  if f == 0 {
+  if f.is_null() {
     return;
   }
   // Safety: only ever stored from an `AfterFn`.
-  let f: AfterFn = unsafe { core::mem::transmute::<usize, AfterFn>(f) };
+  let f: AfterFn = unsafe { core::mem::transmute::<*mut (), AfterFn>(f) };
   f(&ev());
 }
 
@@ -115,11 +116,11 @@ fn after(ev: impl FnOnce() -> Event) {
 #[inline]
 pub fn zeroed(addr: usize, len: usize) {
   let f = ZEROED.load(Ordering::Relaxed);
-  if f == 0 {
+  if f.is_null() {
     return;
   }
   // Safety: only ever stored from a `ZeroedFn`.
-  let f: ZeroedFn = unsafe { core::mem::transmute::<usize, ZeroedFn>(f) };
+  let f: ZeroedFn = unsafe { core::mem::transmute::<*mut (), ZeroedFn>(f) };
   f(addr, len);
 }
 
